@@ -73,6 +73,12 @@ ENGINES = {
                                  "downgrade", "upgrade", "upgradef", "clonew", "dropw", "setw", "clearw", "register", "clean", "dropcl"}),
                 dict(MaxOps=20), {'quick': ['all-dev'], 'thorough': ['all-dev', 'all-rel']},
                 simulate={'quick': 'num=40', 'thorough': 'num=1000'}, depth={'quick': 80, 'thorough': 120}, workers=4),
+    # the same walks without finalization, replayed on the release build (no debug assertions)
+    'simnofin': _eng('simnofin', dict(N=3, NS=1, NP=1, NW=1, FIN=False, DBG=False, MaxRoots=2, MaxWRoots=2, MaxOps=14, MaxFaults=1, MaxTraceK=2, AUTO0=True, CLEAN=True, MaxActs=2,
+                            OPS={"new", "newcyc", "wnew", "setcfg", "clone", "clonef", "drop", "set", "put", "take", "clear", "mark", "collect", "unwrap",
+                                 "downgrade", "upgrade", "upgradef", "clonew", "dropw", "setw", "clearw", "register", "clean", "dropcl"}),
+                dict(MaxOps=20), {'quick': ['nofin-rel'], 'thorough': ['nofin-rel']},
+                simulate={'quick': 'num=40', 'thorough': 'num=1000'}, depth={'quick': 80, 'thorough': 120}, workers=4),
     'faultnofin': _eng('faultnofin', dict(FIN=False, MaxOps=5, MaxFaults=1, MaxTraceK=3, OPS=CORE_OPS - {"fagain"}), dict(MaxOps=7), {'quick': ['nofin-rel'], 'thorough': ['nofin-dev', 'nofin-rel']}),
 }
 
@@ -131,19 +137,19 @@ def _check_engine_builds():
 
 _check_engine_builds()
 
-GRAPH_ENGINES = ['resur', 'fault2', 'core', 'pin', 'nofin', 'fault', 'faultnofin', 'weak', 'weaknofin', 'auto', 'cyc', 'sat', 'clean', 'cleanfault', 'cleanauto', 'cycnofin', 'sim']
+GRAPH_ENGINES = ['resur', 'fault2', 'core', 'pin', 'nofin', 'fault', 'faultnofin', 'weak', 'weaknofin', 'auto', 'cyc', 'sat', 'clean', 'cleanfault', 'cleanauto', 'cycnofin', 'sim', 'simnofin']
 
 # which engines decide which property (stage results are cached per tree, so properties share the work)
 PROP_ENGINES = {
-    'C01': ['resur', 'core', 'pin', 'nofin', 'fault', 'faultnofin', 'weak', 'cycnofin', 'sim'],
-    'C02': ['resur', 'core', 'pin', 'nofin', 'weak', 'sim'],
-    'C03': ['core', 'nofin', 'fault', 'weak', 'cyc', 'sim'],
+    'C01': ['resur', 'core', 'pin', 'nofin', 'fault', 'faultnofin', 'weak', 'cycnofin', 'sim', 'simnofin'],
+    'C02': ['resur', 'core', 'pin', 'nofin', 'weak', 'sim', 'simnofin'],
+    'C03': ['core', 'nofin', 'fault', 'weak', 'cyc', 'sim', 'simnofin'],
     'C04': ['core', 'pin', 'fault', 'weak', 'sat', 'cycnofin', 'sim'],
     'C05': ['resur', 'core', 'nofin', 'fault', 'weak', 'sim'],
     'C06': ['live', 'resur', 'core', 'weak', 'sim'],
     'C07': ['fault', 'fault2', 'faultnofin', 'weaknofin', 'cleanfault', 'auto', 'cyc', 'sim'],
-    'C08': ['weak', 'weaknofin', 'clean', 'sim'],
-    'C09': ['weak', 'weaknofin', 'cyc', 'sat', 'sim'],
+    'C08': ['weak', 'weaknofin', 'clean', 'sim', 'simnofin'],
+    'C09': ['weak', 'weaknofin', 'cyc', 'sat', 'sim', 'simnofin'],
     'C10': ['clean', 'cleanfault', 'cleanauto', 'sim'],
     'C11': ['core', 'auto', 'weak', 'cyc', 'sim'],
     'C12': ['core', 'fault', 'clean', 'auto', 'sim'],
